@@ -8,6 +8,7 @@ mod iter;
 mod game;
 mod misc;
 mod extra;
+mod replay;
 
 fn main() {
     let args: Vec<String> = std::env::args().collect();
@@ -17,6 +18,7 @@ fn main() {
         "dumpfns" => dumpfns::run(),
         "pos" => pos::run(n, args.get(3).map(|s| s.as_str()).unwrap_or("full")),
         "replaypos" => pos::replay(&args[2]),
+        "replayops" => replay::run(&args[2]),
         "mirror" => pos::mirror(n),
         "endgame" => pos::endgame(n),
         "fen" => text::fen(n),
